@@ -347,7 +347,7 @@ ground!(c05_ground_ep_white, b"rnbqkbnr/ppp1pppp/8/3pP3/8/8/PPPP1PPP/RNBQKBNR w 
 ground!(c05_ground_ep_black, b"rnbqkbnr/pppp1ppp/8/8/3Pp3/8/PPP1PPPP/RNBQKBNR b KQkq d3 0 3");
 ground!(c05_ground_rights_kq, b"r3k2r/8/8/8/8/8/8/R3K2R b Kq - 100 9999");
 ground!(c05_ground_rights_qk, b"r3k2r/8/8/8/8/8/8/R3K2R w Qk - 9 10");
-ground!(c05_ground_runs, b"1k6/2p5/3n4/4b3/5r2/6q1/7P/K7 b - - 1234 567");
+ground!(c05_ground_runs, b"1k6/2p5/3n4/4b3/5r2/6q1/7P/7K b - - 1234 567");
 ground!(c05_ground_check, b"4k3/8/8/8/8/8/4r3/4K2R w K - 3 40");
 
 ground!(c05_ground_r00, b"r3k2r/8/8/8/8/8/8/R3K2R w - - 0 1");
